@@ -142,13 +142,13 @@ def dispatchC16 : Dispatch := fun op args =>
     match n.toNat?, tokToBytes? t with
     | some n, some t =>
       both (optHex (oddFromBeHex n t))
-        (optNatHex ((specFromBeHex n t).bind fun v => if v % 2 = 1 then some v else none))
+        (optNatHex ((specFromBeHex n t).bind oddOnly))
     | _, _ => badArgs
   | "c16.odd.from_le_hex", [n, t] =>
     match n.toNat?, tokToBytes? t with
     | some n, some t =>
-      both (optHex (oddFromLeHexAsWritten n t))
-        (optNatHex ((specFromLeHex n t).bind fun v => if v % 2 = 1 then some v else none))
+      both (optHex (oddFromLeHex n t))
+        (optNatHex ((specFromLeHex n t).bind oddOnly))
     | _, _ => badArgs
   | "c16.nz.from_be_byte_array", [n, b] | "c16.nz.from_be_bytes", [n, b] =>
     match n.toNat?, tokToBytes? b with
@@ -163,11 +163,11 @@ def dispatchC16 : Dispatch := fun op args =>
       both (optNz (fromLeSlice n b)) (if beVal b = 0 then "none" else natToHex (beVal b.reverse))
     | _, _ => badArgs
   | "c16.nz.from_le_byte_array", [n, b] =>
-    -- AS WRITTEN (src/non_zero.rs:193-195): calls `T::from_be_byte_array`
+    -- src/non_zero.rs:193-195 (after fix ad61352): `T::from_le_byte_array`
     match n.toNat?, tokToBytes? b with
     | some n, some b =>
       if b.length ≠ 8 * n then badArgs else
-      both (optNz (fromBeSlice n b)) (if beVal b = 0 then "none" else natToHex (beVal b.reverse))
+      both (optNz (fromLeSlice n b)) (if beVal b = 0 then "none" else natToHex (beVal b.reverse))
     | _, _ => badArgs
   -- ---------------------------------------------------------------- words
   | "c16.u.words", [n, v] =>
